@@ -24,7 +24,19 @@ def expressions():
     return out
 
 
+# the suffix operators of the expression grammar (field access on something that is not a plain name, `:` access,
+# cast, window clause, FILTER), alone, stacked, and next to prefix and binary operators; none of them is written with a
+# dialect-sensitive character
+SUFFIX = [
+    "f(x).y", "(a).b", "(select a from t).b", "g(t.c).d = 1", "cast(a as int).b", "f(x).y.z", "(a + b).c", "a:b.c", "f(x):y", "a.b.c",
+    "f(x).y + 1", "- f(x).y", "not (a).b", "(a).b * (c).d + (e).f", "a::int", "a.b::int", "a::int::text", "a::int + 1", "- a::int", "(a::int).b",
+    "count(a) filter (where b > 1)", "sum(a) over (partition by b)", "sum(a) over (order by c) filter (where b)", "f(x).y over (order by c)",
+    "sum(a.b) over (partition by (c).d order by f(e).g)", "1 + sum(a) over (partition by b) * 2", "max((a).b) filter (where (c).d > 1) + 1",
+]
+
+
 def statements(chunk=60):
     """-> list of SELECT statements covering all expressions (chunked to keep each parse short)"""
     ex = expressions()
-    return ["select " + ", ".join(ex[i:i + chunk]) + " from t" for i in range(0, len(ex), chunk)]
+    return ["select " + ", ".join(ex[i:i + chunk]) + " from t" for i in range(0, len(ex), chunk)] + [
+        "select " + ", ".join(SUFFIX) + " from t"] + ["select %s from t" % e for e in SUFFIX]
